@@ -14,7 +14,7 @@ POLICIES = ['local', 'local-priority-fifo', 'local-priority-lifo', 'static', 'st
 PROGS = ['mixed', 'mixed', 'usercb', 'twojoin', 'interrupt', 'jthread', 'basic', 'errors']
 # follow-up C13m: handle operations (move construction/assignment, swap, containers, destruction, jthread moves, a handle
 # moved away under a suspended joiner); `mixed2` draws from all ten scenario kinds
-PROGS_M = ['moves', 'jtmove', 'movejoin', 'handles', 'mixed2']
+PROGS_M = ['moves', 'jtmove', 'movejoin', 'handles', 'mixed2', 'jtswap']
 
 
 def runs(rng, tier):
@@ -40,6 +40,8 @@ def runs(rng, tier):
             out.append([rng.below(1 << 30), rng.choice([0, 200, 400]), PROGS_M[i % len(PROGS_M)], rng.choice([8, 16]),
                         f'--pika:threads={(1, 2, 3, 4, 8)[i % 5]}', f'--pika:scheduler={pol}'])
         out.append([rng.below(1 << 30), 300, 'handles', 12, '--pika:threads=4', '--pika:scheduler=local-priority-fifo'])
+        out.append([rng.below(1 << 30), 100, 'jtswap', 8, '--pika:threads=3', '--pika:scheduler=local-priority-fifo'])
+        out.append([rng.below(1 << 30), 0, 'jtswap', 8, '--pika:threads=1', '--pika:scheduler=static'])
     return out
 
 
